@@ -91,6 +91,9 @@ func ProbeText(spec DecSpec, bar, side, ord int, current int64, n int) string {
 
 func (d *probeDec) Decor(s decor.Statistics) (string, int) {
 	d.calls++
+	if d.spec.Slow > 0 && d.calls == d.spec.Slow {
+		time.Sleep(time.Duration(d.spec.SlowNS))
+	}
 	if d.adjusting {
 		simrt.Log(simrt.Entry{Kind: EvAvgAdj, ID: d.bar, A: int64(d.side), B: int64(d.ord), S: "overlap"})
 	}
